@@ -12,12 +12,15 @@ SEQ = itertools.count()
 SCRIPT = {}
 HOOK_CALLBACK = [None]  # optional callable(tag, hook, args) run inside every hook (scheduler for C15)
 CONSTRUCTED = []
+WANT_FRAMES = [False]   # C16: record, per delivery, the file of the interpreter frame that was executing
+FRAMES = []
 
 
 def reset():
     global SEQ
     LOG.clear()
     SCRIPT.clear()
+    FRAMES.clear()
     SEQ = itertools.count()
     HOOK_CALLBACK[0] = None
 
@@ -84,6 +87,18 @@ def record(tag, hook, args):
     canon = [a if isinstance(a, (str, int)) and not isinstance(a, bool) else vsupport.cr(a) for a in head]
     canon += [vsupport.cr(a) for a in args[2:]]
     LOG.append((tag, next(SEQ), hook, canon))
+    if WANT_FRAMES[0]:
+        import sys
+
+        f = sys._getframe(1)
+        fn = None
+        while f is not None:
+            name = f.f_code.co_filename
+            if not (name.endswith("dynapyt/runtime.py") or name.endswith("vrec.py") or "/vana_" in name or name.endswith("contextlib.py") or name.endswith("functools.py")):
+                fn = name
+                break
+            f = f.f_back
+        FRAMES.append(fn)
     cb = HOOK_CALLBACK[0]
     if cb is not None:
         cb(tag, hook, args)
